@@ -16,6 +16,14 @@ TYPES = [("uint8_t", "u8"), ("int", "i32"), ("struct24", "s24")]
 
 
 # ------------------------------------------------------------ independent reference (value level)
+WRAP = "wrap"       # a view aimed at a wrapper's storage (pw / rw): whether it dangles depends on std::vector's
+WILD = "\x00"       # reallocation policy, which this value-level reference does not model: printed as a wildcard
+
+
+class Unjudged(Exception):
+    """the rest of the history depends on something the reference does not model"""
+
+
 class Store:
     """one allocation of a FixedArray (shared by copies and views)"""
     def __init__(self, cells): self.c = list(cells)
@@ -34,6 +42,7 @@ class Ref:
     # -- observations
     def view_cells(self, s):
         if s["n"] == 0: return []
+        if s["ref"] == WRAP: return WRAP      # aimed at a wrapper's storage: not judged by this reference
         k, g, off = s["ref"]
         if self.src[k] is None or self.src[k][1] != g: return None
         return self.src[k][0][off:off + s["n"]]
@@ -49,7 +58,7 @@ class Ref:
         if s is None: return "-"
         e = self.elems(s)
         n = s["n"] if s["k"] in "VW" else len(e)
-        body = "stale" if e is None else ",".join(str(v) for v in e)
+        body = "stale" if e is None else (WILD if e == WRAP else ",".join(str(v) for v in e))
         return "%s%d%s[%s]" % (s["k"], n, "z" if n == 0 else "p", body)
 
     def dump(self):
@@ -129,6 +138,20 @@ class Ref:
         if op == "ptr":
             ok, ref, cells = self.resolve(f[3], I(4), I(5))
             return ok and self.build(I(1), f[2], ref, cells)
+        if op in ("pw", "rw"):
+            j, off, n = (I(3), I(4), I(5)) if op == "pw" else (I(2), I(3), I(4))
+            if not self.used(j): return False
+            sj = self.sl[j]
+            e = self.elems(sj)
+            if e == WRAP: raise Unjudged()
+            if e is None or off + n > len(e): return False
+            cells = e[off:off + n]
+            if sj["k"] == "V":
+                ref = (sj["ref"][0], sj["ref"][1], sj["ref"][2] + off) if sj["n"] else None
+            else:
+                ref = WRAP
+            if op == "pw": return self.build(I(1), f[2], ref, cells)
+            return self.assign(I(1), ref, cells, False)
         if op == "fixn":
             return self.build(I(1), "F", None, L(f[2]))
         if op == "fview":
@@ -174,6 +197,7 @@ class Ref:
             if not self.used(i): return False
             s = self.sl[i]
             e = self.elems(s)
+            if e == WRAP: raise Unjudged()
             if e is None or idx >= len(e): return False
             if s["k"] == "V": self.src[s["ref"][0]][0][s["ref"][2] + idx] = v
             elif s["k"] == "O": s["c"][idx] = v
@@ -188,7 +212,11 @@ def oracle(case, policy=None, count=None):
     if t[0] == "H":
         r, outs = Ref(policy), []
         for tok in t[1:]:
-            ok = r.step(tok)
+            try:
+                ok = r.step(tok)
+            except Unjudged:
+                outs.append(WILD + WILD)
+                break
             outs.append(("ok|" if ok else "skip|") + r.dump())
         if count is not None: count.append(r.moves)
         return " ; ".join(outs)
@@ -201,13 +229,22 @@ def oracle(case, policy=None, count=None):
     return " ".join(out)
 
 
+def omatch(pattern, line):
+    """pattern: an oracle line; WILD stands for the elements of one view the reference does not judge, WILD WILD for
+    the rest of the history"""
+    if WILD not in pattern:
+        return pattern == line
+    rx = re.escape(pattern).replace(re.escape(WILD + WILD), ".*").replace(re.escape(WILD), r"[^\]]*")
+    return re.fullmatch(rx, line) is not None
+
+
 def accepts(case, impl_line):
     """does the implementation's output satisfy the reference?  (moved-from OwnedArrays may be empty or unchanged)"""
     cnt = []
-    if impl_line == oracle(case, None, cnt): return True
+    if omatch(oracle(case, None, cnt), impl_line): return True
     m = min(cnt[0], 4) if cnt else 0
     for pol in itertools.product([True, False], repeat=m):
-        if impl_line == oracle(case, list(pol)): return True
+        if omatch(oracle(case, list(pol)), impl_line): return True
     return False
 
 
@@ -274,25 +311,49 @@ def gen_H(r, maxlen):
             cur = len(ref.sl[jj]["c"]) if ref.used(jj) and ref.sl[jj]["k"] == "O" else 0
             tok = "resize:%d:%d:%d" % (jj, r.choice([0, 1, max(0, cur - 1), cur, cur + 1, 2 * cur, 2 * cur + 1, r.randint(0, 20), 40]),
                                        r.randint(0, 200))
-        elif c < 0.77: tok = "%s:%d:%d" % (r.choice(["cc", "cc", "mc"]), i, j)
+        elif c < 0.75: tok = "%s:%d:%d" % (r.choice(["cc", "cc", "mc"]), i, j)
+        elif c < 0.80:
+            # a (pointer, size) argument taken from a wrapper's own storage: self-aliasing reset, view / copy of a sub-range
+            def wlen(x):
+                if not ref.used(x): return 2
+                e = ref.elems(ref.sl[x])
+                return ref.sl[x]["n"] if e == WRAP else len(e or [])
+            if r.random() < 0.6:
+                tg = [x for x in used if ref.sl[x]["k"] in "OV"]
+                ii = r.choice(tg) if tg and not wild else j
+                jj = ii if r.random() < 0.6 else j
+                ln = wlen(jj)
+                off = r.randint(0, ln)
+                tok = "rw:%d:%d:%d:%d" % (ii, jj, off, r.choice([ln - off, ln - off, r.randint(0, ln - off), 0, ln - off + (1 if wild else 0)]))
+            else:
+                ln = wlen(j)
+                off = r.randint(0, ln)
+                tok = "pw:%d:%s:%d:%d:%d" % (i, r.choice("VOF"), j, off, r.choice([ln - off, r.randint(0, ln - off), ln - off + (1 if wild else 0)]))
         elif c < 0.84:
             same = [x for x in used if ref.sl[x]["k"] == ref.sl[j]["k"]] if used and ref.used(j) else []
             ii = r.choice(same) if same and not wild else r.randrange(NSLOT)
             tok = "%s:%d:%d" % (r.choice(["ca", "ca", "ma"]), ii, j)
         elif c < 0.93: tok = "del:%d" % j
         else:
-            ln = len(ref.elems(ref.sl[j]) or []) if ref.used(j) else 1
+            ee = ref.elems(ref.sl[j]) if ref.used(j) else [0]
+            ln = ref.sl[j]["n"] if ee == WRAP else len(ee or [])
             tok = "w:%d:%d:%d" % (j, r.randint(0, max(0, ln - 1 + (1 if wild else 0))), r.randint(0, 200))
         ops.append(tok)
-        ref.step(tok)
+        try:
+            ref.step(tok)
+        except Unjudged:
+            ref = Ref()          # from here on choose blindly (the model and the real code still agree or not)
+            for t2 in ops:
+                try: ref.step(t2)
+                except Unjudged: pass
     return "H " + " ".join(ops)
 
 
 EXH_PREFIX = ["sset:0:v:1,2,3", "sset:1:a:7,8"]
-EXH_ALPHA = ["src:0:O:0", "src:0:F:0", "src:0:V:0", "ptr:1:O:0:1:2", "def:1:O", "cc:1:0", "mc:1:0", "ca:0:1", "ma:1:0", "ma:0:1",
+EXH_ALPHA = ["rw:0:0:1:2", "rw:0:0:0:3", "rw:0:1:1:1", "pw:1:V:0:0:3", "pw:1:O:0:1:2", "src:0:O:0", "src:0:F:0", "src:0:V:0", "ptr:1:O:0:1:2", "def:1:O", "cc:1:0", "mc:1:0", "ca:0:1", "ma:1:0", "ma:0:1",
              "del:0", "del:1", "fview:1:0:1:2", "asrc:0:1", "resize:0:9:4", "resize:0:1:4", "reset:0", "rptr:0:1:0:2",
              "sset:0:v:5,6", "skill:0", "swrite:0:1:8", "w:1:0:9", "w:0:1:9"]
-EXH_SMALL = ["src:0:O:0", "src:0:F:0", "src:0:V:0", "cc:1:0", "mc:1:0", "ca:0:1", "ma:1:0", "del:0", "fview:1:0:1:2", "asrc:0:1",
+EXH_SMALL = ["rw:0:0:1:2", "pw:1:V:0:0:3", "rw:0:1:0:2", "src:0:O:0", "src:0:F:0", "src:0:V:0", "cc:1:0", "mc:1:0", "ca:0:1", "ma:1:0", "del:0", "fview:1:0:1:2", "asrc:0:1",
              "resize:0:9:4", "resize:1:1:4", "reset:0", "sset:0:v:5,6", "w:1:0:9", "w:0:1:9"]
 
 
@@ -327,6 +388,8 @@ def run_impl(ctx, exe, arg, cases, max_crashes=8):
     start = 0
     while start < len(cases):
         rc, out, err = vlib.run_lines(ctx, exe, [arg], cases[start:], timeout=900)
+        if out == [""]:
+            out = []          # the process died before completing its first case
         for j, l in enumerate(out[:len(cases) - start]):
             lines[start + j] = l
         if rc == 0 and len(out) >= len(cases) - start:
@@ -381,7 +444,7 @@ def run(ctx):
         ctx.cov["source_facts"]["diagnosis(check_special, check_exprs, failing member/operation pairs)"] = diag
         ctx.log("fact table of this tree does NOT match Model.v: " + diag[:600])
     model = ctx.extract(snippets=["conv_N.ml", "conv_nat.ml"])
-    exe = ctx.cxx(["harness.cpp"], "harness", sanitize="asan")
+    exe = ctx.cxx(["harness.cpp"], "harness", sanitize="asan", flags=["-D_GLIBCXX_SANITIZE_VECTOR"])
     if not model or not exe:
         return
     r = ctx.rng("cases")
@@ -404,7 +467,7 @@ def run(ctx):
         return
     # the value-level reference and the Coq model must agree everywhere (both describe the repaired code)
     olines = [oracle(c) for c in cases]
-    bad = [i for i in range(len(cases)) if olines[i] != mlines[i]]
+    bad = [i for i in range(len(cases)) if not omatch(olines[i], mlines[i])]
     if bad:
         ctx.broken.append("Coq model and the python reference disagree on %d cases, first: %r model=%r reference=%r"
                           % (len(bad), cases[bad[0]], mlines[bad[0]][-300:], olines[bad[0]][-300:]))
@@ -418,9 +481,10 @@ def run(ctx):
         steps_total += len(ops)
         interesting = False
         for tok, s in zip(ops, st):
-            key = tok.split(":")[0] + ("" if s.startswith("ok|") else "(skip)")
+            tf = tok.split(":")
+            key = tf[0] + ("(self)" if tf[0] == "rw" and tf[1] == tf[2] else "") + ("" if s.startswith("ok|") else "(skip)")
             hist[key] = hist.get(key, 0) + 1
-            if s.startswith("ok|") and tok.split(":")[0] in ("cc", "mc", "ca", "ma", "resize", "fview", "del", "asrc", "rptr", "reset"):
+            if s.startswith("ok|") and tok.split(":")[0] in ("cc", "mc", "ca", "ma", "resize", "fview", "del", "asrc", "rptr", "reset", "pw", "rw"):
                 interesting = True
         for m in re.finditer(r"([VOFW])(\d+)[zp]\[", st[-1]):
             kinds[m.group(1)] = kinds.get(m.group(1), 0) + 1
@@ -441,10 +505,12 @@ def run(ctx):
         sh[key] = sh.get(key, 0) + 1
     ctx.cov["dataview_layouts"] = sh
     ctx.rule = ("histories (length<=30, random, biased to operations whose precondition holds, 12%% wild) over 4 wrapper slots and 3 source "
-                "containers (std::vector and std::array<T,0..6>) plus all histories up to length %d over a 23-op alphabet and up to length %d "
-                "over a 16-op alphabet after a fixed 2-source prefix; after every step size(), data()==nullptr, every element by iteration, "
+                "containers (std::vector and std::array<T,0..6>) plus all histories up to length %d over a 28-op alphabet and up to length %d "
+                "over a 19-op alphabet after a fixed 2-source prefix; after every step size(), data()==nullptr, every element by iteration, "
                 "operator[], at(i) for all i<size and at(size()), at(size()+1), at(SIZE_MAX), begin/end/cbegin/cend are compared; each run "
-                "for uint8_t, int and a 24-byte struct under ASan+UBSan; DataView cases with packed/padded/overlapping/zero strides for "
+                "for uint8_t, int and a 24-byte struct under ASan+UBSan; (pointer, size) arguments are taken from source containers, "
+                "nullptr, and from WRAPPERS' own storage (pw / rw: w_i.reset(w_j.data()+off, n) with j = i for every off, through a view "
+                "over the array itself, from other wrappers), plus self copy-/move-assignment; DataView cases with packed/padded/overlapping/zero strides for "
                 "sizeof 1,2,3,4,5,7,8,24 in exact-size heap buffers. non-trivial = a history in which a copy/move/assign/resize/reset/"
                 "view/destroy step took effect and the wrappers went through >=3 distinct states (every DataView case counts)"
                 % (ctx.pick(2, 3), ctx.pick(3, 4)))
@@ -489,7 +555,7 @@ def run(ctx):
                           "an access the wrapper performs or licenses (element i < size(), at(), iteration, DataView[i]) leaves live storage" % (label, rc2 if rc2 else rc),
                           {"label": label, "case": line, "original_case": case,
                            "observed": (out2.strip() or "<process aborted before the line was complete>"),
-                           "sanitizer": asan_summary(err2) or summ, "required": oracle(line)})
+                           "sanitizer": asan_summary(err2) or summ, "required": oracle(line).replace(WILD, "?")})
         for i in range(len(cases)):
             il = ilines[i]
             if il is None or il == mlines[i]:
@@ -513,7 +579,7 @@ def run(ctx):
                 ctx.violation("%s disagrees with the reference semantics of the array wrappers (size/data/elements/at()/iteration after the "
                               "last operation)" % label,
                               {"label": label, "case": line, "original_case": cases[i], "observed": out2.strip() or ("<aborted rc=%d>" % rc2),
-                               "sanitizer": asan_summary(err2), "required": oracle(line)})
+                               "sanitizer": asan_summary(err2), "required": oracle(line).replace(WILD, "?")})
             elif not any(b.startswith("correspondence C11 model vs " + label) for b in ctx.broken):
                 ctx.broken.append("correspondence C11 model vs %s on case %r: impl=%r model=%r (impl satisfies the reference)"
                                   % (label, cases[i], il[-200:], mlines[i][-200:]))
@@ -521,14 +587,18 @@ def run(ctx):
     ctx.trusted += ["fact extractor props/C11/factgen.py over `clang++ -std=c++11 -fsyntax-only -Xclang -ast-dump=json "
                     "-Xclang -ast-dump-filter=rkcommon::utility` of a TU instantiating the six wrappers (classifies mem-initialisers and "
                     "statements into the micro-operations / terms of coq/C11/FactsModel.v; anything unrecognised becomes "
-                    "MUnknown / TUnknown and fails PropertiesFacts.facts_match); the reflective check runs on 80 configurations and a grid",
+                    "MUnknown / TUnknown and fails PropertiesFacts.facts_match); the reflective check runs on 96 configurations and a grid",
                     "correspondence harness harness/C11/harness.cpp (g++ -std=c++11 -O1, ASan+UBSan, libstdc++) + generators and the value-level "
                     "reference `Ref` in props/C11/check.py; the harness recognises legitimately dangling ArrayViews by (source, generation) "
                     "bookkeeping and does not read through them",
                     "modelled, not verified: std::vector (allocation on copy/range construction, resize growth policy, shrink_to_fit), "
                     "std::shared_ptr reference counting, operator new[]/memcpy — their observable behaviour is what the differential run compares; "
                     "use-after-free detection relies on ASan's quarantine"]
-    ctx.assumptions += ["element values are N codes in the model (uint8_t / int / a 24-byte struct with redundant fields in the harness)",
+    ctx.assumptions += ["an ArrayView aimed at a wrapper's storage: whether it dangles after the owner is mutated depends on std::vector's "
+                        "reallocation policy; the Coq model mirrors libstdc++'s (b_cap) and the harness asks ASan whether the range is "
+                        "poisoned (built with _GLIBCXX_SANITIZE_VECTOR); the python reference does not judge such views (wildcard) nor "
+                        "anything that depends on them",
+                        "element values are N codes in the model (uint8_t / int / a 24-byte struct with redundant fields in the harness)",
                         "preconditions of the C++ interface (pointer+size arguments designate live storage; FixedArrayView offset+size inside "
                         "the viewed array; operator[] index < size) are preconditions of the model's operations: a history step violating one "
                         "is skipped on both sides",
